@@ -605,6 +605,9 @@ Step(t) ==
 
 Next == \E t \in AllT : Step(t)
 Spec == Init /\ [][Next]_vars
+(* with every thread scheduled fairly, every scenario runs to completion (cross-check of C08 by a temporal
+   property; checked without state constraints on the smallest blocking configurations) *)
+FairSpec == Spec /\ \A t \in AllT : WF_vars(Step(t))
 
 (* ------------------------------------------------------------------ properties *)
 NoBad == gh.bad = {}
@@ -638,6 +641,8 @@ TeardownClean ==
           ELSE (mem.noR /\ gh.lastpos >= 0) =>
                  /\ mem.head - gh.lastpos <= N
                  /\ gh.inq = {mem.slotv[Idx(c)] : c \in gh.lastpos..(mem.head - 1)}
+
+Termination == <>[](\A t \in AllT : thr[t].pc = "idle" /\ thr[t].prog = <<>>)
 
 PreBound == gh.npre <= MaxPre
 Replayed == Done => PrintT(<<"REPLAY", ToJson(hist)>>)
